@@ -82,6 +82,10 @@ def ptfs_stage(prop, cases, name="native", kind="native", **kw):
     return d
 
 
+def c15_stages(tier):
+    return [ptfs_stage("C15", 4_000 if tier == "quick" else 150_000, timeout=2400, crash_is_violation=True)]
+
+
 def c18_stages(tier):
     return [ptfs_stage("C18", 3_000 if tier == "quick" else 120_000, timeout=2400, crash_is_violation=True)]
 
@@ -206,6 +210,25 @@ PROPS = {
         "rule": "case = one history (2-9 steps, optionally after a 10-260 cycle allocator burst); evaluations = save/restore points; distinct = (format, fresh-Vfs "
                 "kind, initialised?, global mapping?, number of mounts, step kind).",
         "assumptions": ["twin NumFs backends are deterministic functions of their id"],
+    },
+    "C15": {
+        "level": "fault_enumeration",
+        "stages": c15_stages,
+        "floor": 1000,
+        "technique": "runtime monitoring with real fault injection: /proc/self/fd and server-table (hook) accounting at baseline vs quiescence in a "
+                     "single-threaded worker, EMFILE injected by lowering RLIMIT_NOFILE to leave exactly k free descriptor numbers (k enumerated per request "
+                     "kind until success, and random in histories)",
+        "level_text": "Two workloads per shard: (a) enumerated sweeps - for each of 15 request kinds (lookup, open, opendir, create new/existing/on-dir, "
+                      "readdirplus, mkdir, mknod, symlink, link, handle-less read, getattr, setattr(size), destroy+init) the request is repeated against a fresh "
+                      "server with k = 0,1,2,... free descriptor numbers until it succeeds, so every descriptor-allocation depth fails once; (b) random "
+                      "histories of open/opendir/create/release/read/readdir/forget/destroy+init with random k. Afterwards the client releases every handle "
+                      "and forgets every inode, and the process must hold no more descriptors, inode objects, handles or directory-position records than "
+                      "right after INIT. Handle discipline (wrong inode -> EBADF, use after release -> EBADF, no duplicate live handles) is checked inline.",
+        "level_note": "The client only counts what successful replies delivered. 'No more than a fresh server': a re-initialisation that itself failed under "
+                      "EMFILE may leave less. Descriptor numbers, not counts, are limited by RLIMIT_NOFILE; the harness computes the limit that leaves exactly k free.",
+        "rule": "evaluations = requests; distinct = (request kind, k or none, errno, configuration) for histories and (kind, k, errno, inode_file_handles) for "
+                "sweeps; every request is non-trivial.",
+        "assumptions": ["worker process is single-threaded", "ext4 scratch directory, running as root"],
     },
     "C18": {
         "level": "exploration",
